@@ -102,6 +102,23 @@ def run(ctx, chk):
             s = summarize_fn(ctx, fn)
             sp = A[group][m]
             carry_in = sp.get("carry_in", False)
+            # a flag that must be preserved may be saved and restored (through a branch on its old value): decide that by
+            # trace partitioning on the flag's incoming value: in both partitions the final bit is the assumed constant
+            flagv = s.flag
+            for nm in sp.get("preserved", ()):
+                i = FBIT[nm]
+                if flagv.kind == "int" and flagv.bits[i] != ("c", "flag", i):
+                    same = True
+                    for val in (0, 1):
+                        s2 = summarize_fn(ctx, fn, assume={("flag", i): val})
+                        if s2.flag.kind != "int" or s2.flag.bits[i] != val:
+                            same = False
+                    if same:
+                        from absint import IntV
+                        bits = list(flagv.bits)
+                        bits[i] = ("c", "flag", i)
+                        flagv = IntV(flagv.ty, tuple(bits), flagv.lo, flagv.hi)
+            s.flag = flagv
             check_flags(chk, "C01.R1", "C01.R2", unit, s.flag, sp["written"], sp.get("undefined", ()), (),
                         sp.get("preserved", ()), self_dep_ok=(("CF", "PF", "AF", "ZF", "SF", "OF") if carry_in else ()), where=where)
             # INC/DEC: CF preserved is part of R2's statement
